@@ -94,21 +94,32 @@ func C10local(p *load.Program, run *report.Run) {
 			}
 		}
 		env := map[ssa.Value]fpai.Val{}
-		for _, v := range free {
+		// bindFor: the abstract value of a free variable of the region, by its type; a variable that a closure
+		// captures lives in a cell (a pointer to its type), which holds the same value
+		var bindFor func(t types.Type, name string, depth int) fpai.Val
+		bindFor = func(t types.Type, name string, depth int) fpai.Val {
 			switch {
-			case types.Identical(v.Type(), types.NewSlice(types.NewPointer(gateT))):
-				env[v] = &fpai.SymSlice{Name: "gates", M: map[string]*fpai.Obj{"0": {V: fpai.PtrV{O: gate}}}, Len: fpai.IntV{K: 1}}
-			case types.Identical(v.Type(), types.NewPointer(netT)):
-				env[v] = fpai.PtrV{O: &fpai.Obj{V: net}}
-			case types.Identical(v.Type(), types.NewPointer(peerT)):
-				env[v] = fpai.PtrV{O: peerObj}
-			default:
-				if bt, ok := v.Type().Underlying().(*types.Basic); ok && bt.Info()&types.IsInteger != 0 {
-					env[v] = fpai.IntV{K: 0}
-				} else {
-					env[v] = fpai.OpaqueV{Name: v.Name()}
+			case types.Identical(t, types.NewSlice(types.NewPointer(gateT))):
+				return &fpai.SymSlice{Name: "gates", M: map[string]*fpai.Obj{"0": {V: fpai.PtrV{O: gate}}}, Len: fpai.IntV{K: 1}}
+			case types.Identical(t, types.NewPointer(netT)):
+				return fpai.PtrV{O: &fpai.Obj{V: net}}
+			case types.Identical(t, types.NewPointer(peerT)):
+				return fpai.PtrV{O: peerObj}
+			}
+			if bt, ok := t.Underlying().(*types.Basic); ok && bt.Info()&types.IsInteger != 0 {
+				return fpai.IntV{K: 0}
+			}
+			if pt, ok := t.Underlying().(*types.Pointer); ok && depth < 2 {
+				if inner := bindFor(pt.Elem(), name, depth+1); inner != nil {
+					if _, opaque := inner.(fpai.OpaqueV); !opaque {
+						return fpai.PtrV{O: &fpai.Obj{V: inner}}
+					}
 				}
 			}
+			return fpai.OpaqueV{Name: name}
+		}
+		for _, v := range free {
+			env[v] = bindFor(v.Type(), v.Name(), 0)
 		}
 		ret, _, err := in.RunRegion(fn, loop.Body, loop.Header, env, func(from, to *ssa.BasicBlock) bool { return to == loop.Header })
 		if err != nil {
